@@ -187,6 +187,10 @@ def check_kernels_pure(P, R):
 
 def run(P, R, tier):
     check_kernels_pure(P, R)
+    from ..engines import memo, own as owneng
+    _own = owneng.Own(P)
+    for cn in ("FactorAnalysisBase", "ISVMachine", "JFAMachine"):
+        memo.check_class(P, R, _own, cn)
     check_residuals(P, R)
     check_precisions(P, R)
     check_latent_updates(P, R)
